@@ -182,7 +182,7 @@ def run(ctx):
         # fixed probe of a recorded finding (int/float promotion in the ndarray fast path)
         probe = ["obj", "SA", [["a", ["list", [["scalar", ["int", str(2 ** 62 + 1)]], ["scalar", sc.S(0.5)]]]]]]
         check_case(ctx, drv, probe, [gen_cfg(ctx.rng.fork(999), "zip")], "probe")
-        n = ctx.n(120, 1500)
+        n = ctx.n(120, 1000)
         for i in range(n):
             rng = ctx.rng.fork(i)
             allow = {"rng_in_container": True, "fallback_in_container": True, "npcomplex": True}
